@@ -298,6 +298,23 @@ func judgeC14(c *core.Case, cfg *core.Config) core.Verdict {
 			return v
 		}
 	}
+	// a comparison under `not` is the negation of the comparison's result (for a NaN operand that is NOT the
+	// opposite comparison)
+	if wb, isBool := want.(bool); isBool && (mode == "map" || mode == "untyped") {
+		for _, neg := range []string{"not (A " + op + " B)", "!(A " + op + " B) or false"} {
+			np := c14Compile(fmt.Sprintf("neg|%s|%s|%v|%v", mode, neg, ka, kb), neg, typed, sample)
+			if np.err != nil {
+				v.Violation = desc + ": " + neg + " is rejected: " + firstLine(np.err.Error())
+				return v
+			}
+			ngot, nerr := run(np.prog, env)
+			if nerr != nil || ngot != !wb {
+				v.Violation = fmt.Sprintf("%s: %s: expected %v, got %s", desc, neg, !wb, runOut{ngot, nerr, nil})
+				return v
+			}
+		}
+		v.Classes = append(v.Classes, "negated-comparison")
+	}
 	// non-trivial: kinds differ and the conversion changes the lower operand's value, or an integer result wrapped
 	if !unary && ka != kb {
 		v.Classes = append(v.Classes, "kinds-differ")
@@ -371,7 +388,7 @@ func TestC14(t *testing.T) {
 	}
 	defer rec.Flush()
 	rec.Extra["rule"] = "exhaustive: 12x12 ordered kind pairs x {+ - * / % == != < <= > >= **} (+ unary minus per kind) x boundary grid of each kind, in modes map-env / struct-env / untyped / literal-left / literal-right; then random full-range values. Non-trivial: operand kinds differ and converting the lower-ranked operand changes its value, or an integer result wraps; distinct by (mode, op, kinds, values)."
-	rec.Extra["assumptions"] = []string{"reference arithmetic: reflect.Value.Convert + int64/uint64/float64/float32 arithmetic wrapped to the promoted kind (harness/core/refeval.go RefArith)", "environment floats are finite in the grid; NaN/Inf arise only as results"}
+	rec.Extra["assumptions"] = []string{"reference arithmetic: reflect.Value.Convert + int64/uint64/float64/float32 arithmetic wrapped to the promoted kind (harness/core/refeval.go RefArith)", "the float grids include NaN, +Inf, -Inf and -0 as operand values"}
 	rec.Extra["exhaustive"] = true
 	rec.Extra["floor"] = 0.1
 	okGrid := core.RunEnum(t, rec, "grid", func(yield func(*core.Case) bool) {
